@@ -15,6 +15,7 @@ import (
 	"time"
 
 	"github.com/pion/rtp"
+	"github.com/bluenviron/gortsplib/v5/pkg/sdp"
 
 	"github.com/bluenviron/gortsplib/v5"
 	"github.com/bluenviron/gortsplib/v5/pkg/description"
@@ -34,6 +35,7 @@ type Flow struct {
 	Quick       bool   // part of the quick tier
 	Base        string // flow whose conversation is a prefix of this one
 	CredPairs   bool   // pairs of deviations are also enumerated with credentials in the URL
+	NoDescribe  bool   // the application already has the description (from an earlier client, a cache): no DESCRIBE, Setup per media
 	Handshake   bool   // pseudo-flow: tunnel handshake against a misbehaving peer (tunnelhs.go), not part of the control / deviation machinery
 }
 
@@ -44,6 +46,8 @@ var flows = []*Flow{
 	{Name: "play-auto", Mode: "play", Proto: "auto", Quick: false},
 	{Name: "play-auto-461", Mode: "play", Proto: "auto", NoUDP: true, Quick: true},
 	{CredPairs: true, Name: "play-auto-switch", Mode: "play", Proto: "auto", Blackhole: true, Pause: true, Quick: true, Base: "play-auto"},
+	{Name: "play-auto-switch-nodescribe", Mode: "play", Proto: "auto", Blackhole: true, NoDescribe: true, Quick: true},
+	{Name: "play-tcp-nodescribe", Mode: "play", Proto: "tcp", NoDescribe: true, Pause: true, Quick: true},
 	{Name: "pause-tcp", Mode: "play", Proto: "tcp", Pause: true, Quick: true, Base: "play-tcp"},
 	{Name: "pause-udp", Mode: "play", Proto: "udp", Pause: true, Quick: false, Base: "play-udp"},
 	{CredPairs: true, Name: "record-tcp", Mode: "record", Proto: "tcp", Pause: true, Quick: true},
@@ -423,15 +427,38 @@ func runCase(cs Case, mark func(step string)) *ExecResult {
 		step("options", func() error { _, err := c.Options(u); return err })
 		step("describe", func() error { _, _, err := c.Describe(u); return err })
 	case "play":
-		step("describe", func() error {
-			d, _, err := c.Describe(u)
-			desc = d
-			if err == nil && d == nil {
-				return errors.New("Describe returned neither a description nor an error")
+		if flow.NoDescribe {
+			// what the correct server would have answered, obtained elsewhere
+			var sd sdp.SessionDescription
+			if err := sd.Unmarshal([]byte(strings.Join(correctSDP(flow), "\r\n") + "\r\n")); err != nil {
+				res.Harness = append(res.Harness, "harness SDP: "+err.Error())
+				return res
 			}
-			return err
-		})
-		step("setup", func() error { return c.SetupAll(desc.BaseURL, desc.Medias) })
+			desc = &description.Session{}
+			if err := desc.Unmarshal(&sd); err != nil {
+				res.Harness = append(res.Harness, "harness SDP: "+err.Error())
+				return res
+			}
+			desc.BaseURL = sysx.MustURL(us + "/")
+			step("setup", func() error {
+				for _, m := range desc.Medias {
+					if _, err := c.Setup(desc.BaseURL, m, 0, 0); err != nil {
+						return err
+					}
+				}
+				return nil
+			})
+		} else {
+			step("describe", func() error {
+				d, _, err := c.Describe(u)
+				desc = d
+				if err == nil && d == nil {
+					return errors.New("Describe returned neither a description nor an error")
+				}
+				return err
+			})
+			step("setup", func() error { return c.SetupAll(desc.BaseURL, desc.Medias) })
+		}
 		if step("play", func() error { _, err := c.Play(nil); return err }) {
 			// the media the server sends right after its PLAY answer is processed by the client's reader
 			// before the flow goes on (no virtual time passes)
